@@ -15,6 +15,7 @@ HasAccessibles.__init_subclass__ machinery, so that programs (C09) and configura
                    ['V', value]                                                     bare value overriding an accessible / a property
                    ['N']                                                            None (removes the accessible)
                    ['C', {'argument': spec|None, 'result': spec|None, properties}, impl]   Command(...)(function)
+                   ['CO', {properties}]                                             Command(optional=True, ...) without function
                    ['M', impl]                                                      plain function (write_/read_/check_/doPoll or a
                                                                                     method overriding a command without decorator)
                    ['R', {'description', 'datatype', properties}]                   a module Property(...)
@@ -30,6 +31,7 @@ import types
 
 import frappy.core     # noqa  (must be imported before frappy.mixins)
 import frappy.mixins
+import frappy.io
 from frappy import datatypes as D
 from frappy.errors import RangeError
 from frappy.modulebase import Feature, HasAccessibles
@@ -40,6 +42,7 @@ from frappy.properties import Property
 FRAPPY_BASES = {
     'object': object, 'Module': Module, 'Readable': Readable, 'Writable': Writable, 'Drivable': Drivable,
     'Communicator': Communicator, 'Feature': Feature, 'HasAccessibles': HasAccessibles,
+    'HasIO': frappy.io.HasIO,
     'HasControlledBy': frappy.mixins.HasControlledBy, 'HasOutputModule': frappy.mixins.HasOutputModule,
 }
 
@@ -149,6 +152,8 @@ def make_item(item):
         if 'result' in kwds:
             kwds['result'] = dt(kwds.pop('result'))
         return Command(**args, **kwds)(make_impl(item[2]))
+    if code == 'CO':      # an optional command a subclass may implement
+        return Command(optional=True, **dict(item[1]))
     if code == 'M':
         return make_impl(item[1])
     if code == 'R':
@@ -225,13 +230,54 @@ G_RECORDS = {
         'write_target': ['M', 'w:target'], 'write_ramp': ['M', 'w:ramp'],
         'read_value': ['M', 'r:value'], 'read_status': ['M', 'r:status'],
     }},
+    # not polled (enablePoll = False): nothing to poll, but configured values to be written to the hardware
+    'GQ': {'bases': ['Module'], 'body': {
+        'enablePoll': ['V', False],
+        'g': ['P', {'description': 'gain', 'datatype': ['double', {'min': 0, 'max': 100}], 'readonly': False, 'default': 1.0}],
+        'write_g': ['M', 'w:g'],
+        'h': ['P', {'description': 'string without write method', 'datatype': ['string', {'maxchars': 8}], 'readonly': False,
+                    'default': ''}],
+    }},
+    # not polled and attached to a communicator module: handled by the poll thread of the io module
+    'GH': {'bases': ['HasIO'], 'body': {
+        'enablePoll': ['V', False],
+        'g': ['P', {'description': 'gain', 'datatype': ['double', {'min': 0, 'max': 100}], 'readonly': False, 'default': 1.0}],
+        'write_g': ['M', 'w:g'],
+        'h': ['P', {'description': 'string without write method', 'datatype': ['string', {'maxchars': 8}], 'readonly': False,
+                    'default': ''}],
+    }},
+    # the io module GH modules attach to (auxiliary, always configured correctly)
+    'GIO': {'bases': ['Module'], 'body': {
+        'x': ['P', {'description': 'polled', 'datatype': ['double', {}], 'default': 0}],
+        'read_x': ['M', 'r:x'],
+        'doPoll': ['M', 'poll'],
+    }},
+    # base class declaring optional accessibles; GO does not implement them, GOI implements the parameter
+    'GOB': {'bases': ['Module'], 'body': {
+        'opt': ['P', {'description': 'optional parameter', 'datatype': ['double', {'min': 0, 'max': 100}], 'readonly': False,
+                      'optional': True}],
+        'ocmd': ['CO', {'description': 'optional command'}],
+        'f': ['P', {'description': 'float', 'datatype': ['double', {'min': 0, 'max': 10, 'unit': 'K'}], 'readonly': False,
+                    'default': 1.0}],
+        'write_f': ['M', 'w:f'],
+        'doPoll': ['M', 'poll'],
+    }},
+    'GO': {'bases': ['GOB'], 'body': {}},
+    'GOI': {'bases': ['GOB'], 'body': {
+        'opt': ['P', {'default': 1.0}],
+        'write_opt': ['M', 'w:opt'],
+    }},
 }
 _G = {}
 
 
 def G(name):
     if name not in _G:
-        _G[name] = make_class(name, G_RECORDS[name], {})
+        rec = G_RECORDS[name]
+        for b in rec['bases']:
+            if b in G_RECORDS:
+                G(b)
+        _G[name] = make_class(name, rec, _G)
     return _G[name]
 
 
